@@ -131,8 +131,10 @@ def c02(ck):
 
 
 def c02_values(ck):
-    """every value of the 1- and 2-byte formats, F4 bit patterns (interval summaries)"""
-    pass
+    """every value of the 1- and 2-byte formats and F4 bit patterns, as interval summaries validated by TLC"""
+    ck.trace("values", "val-sweep", [], "TraceCodec", "TraceCodec.cfg", ["InvVal"], consts_extra={"ChunkSize": 1}, timeout=1200)
+    ck.extra["value_sweep"] = ("B, A, I1, U1, I2, U2: every value and the values around the range; F4: %s"
+                               % ("all 2^32 bit patterns" if ck.tier == "thorough" else "every high half x low halves 0, 1, 0xFFFF"))
 
 
 # ---------------------------------------------------------------------------------------------- C13
